@@ -118,9 +118,6 @@ package cache
 //@   ensures [count-stale C15] Added(t, "targetLeavesStale") == ite(res1 == ErrStale, 1, 0)
 //@   ensures [count-future C15] Added(t, "targetLeavesFuture") == ite(res1 == ErrFuture, 1, 0)
 //@   ensures [count-suppressed C15] Added(t, "targetLeavesSuppressed") == ite(res0 == nil && res1 == nil, 1, 0)
-//@   ensures [every-announced-removal-is-counted-once C15] Added(t, "targetLeaves") == 0 - len(res0) && Added(t, "targetLeavesDeleted") == len(res0)
-//@   ensures [metadata-entry-reset-iff-a-metadata-leaf-is-addressed C15 C14] hits("call (*Metadata).ResetEntry#0") == old(hits("call (*Metadata).ResetEntry#0")) + ite(len(JPD(n)) > 1 && JPD(n)[0] == "meta", 1, 0)
-//@   assert at call (*Metadata).ResetEntry#0: [the-addressed-entry-is-reset C15] arg0 == t.meta && arg1 == JPD(n)[1]
 //@   ensures [count-leaves C15] Added(t, "targetLeaves") == treal[t.t] - old(treal[t.t]) && Added(t, "targetLeavesAdded") == treal[t.t] - old(treal[t.t])
 //@   ensures [count-others-untouched C15] Added(t, "targetLeavesUpdated") == 0 && Added(t, "targetLeavesEmpty") == 0 && Added(t, "targetLeavesDeleted") == 0
 
